@@ -5495,7 +5495,8 @@ class CodegenCtx:
             return f"state->{intexpr.ref.name}_counter";
         elif isinstance(intexpr, StringRefIntegerExpr):
             index = self._generate_code_for_int_expr(intexpr.index, ctx)
-            text = self._generate_buflike_index_expr(intexpr.ref, index)
+            # an indexed byte is a byte value (0-255) whether strings are stored as char or as uint8_t
+            text = "((uint8_t)" + self._generate_buflike_index_expr(intexpr.ref, index) + ")"
             size_str = self._generate_buflike_length_expr(intexpr.ref)
             if ProgramData.do(ProgramFlag.UNSAFE_STRING_INDEXING):
                 return text
